@@ -33,8 +33,9 @@ Oracle: histories (bzr 2a and git trees) with modified, added, re-added,
     versioned files in scope, remove --force).  uncommit: directory snapshot
     identical.
 
-Findings are reported with a family computed from the concrete failing input
-(see `_family`).
+Finding repaired by a fix: commit in /repo (corpus/C12 holds the two scenarios,
+run first): revert with backups deleted the content of a working file whose id
+is absent from the basis but present in the revert target.
 
 Mutants this was built against (scratch worktree with the proposed fix applied,
 seed 0; o = caught by the oracle with a concrete lost content, t = by the
@@ -562,11 +563,8 @@ def _tokens(text):
 
 
 def _family(sc, path, fact):
-    """family of a lost user content, from the concrete input"""
-    if sc["cmd"] == "revert" and fact is not None and fact.get("backups") and fact.get("tkind") == "file" \
-            and not fact.get("bpresent") and fact.get("tversioned"):
-        # the working file's id is absent from the basis tree but present (as a file) in the revert target
-        return "revert-file-id-absent-from-basis"
+    """no known-finding family: the one defect found here (revert deleting a file whose id is absent
+    from the basis, without backup) was repaired by a fix: commit and is a plain violation if it returns"""
     return None
 
 
